@@ -590,6 +590,23 @@ func Elision(t Tier) []*Grammar {
 	out = append(out, mk("elide-neglook2", ns, []scheme{schemeShared})...)
 	out = append(out, mk("elide-sub2", ss, []scheme{schemeOwn})...)
 	out = append(out, mk("elide-tok2", thin(ts, 3), []scheme{schemeTok, schemeToks})...)
+	// case-insensitive keywords with elided tokens in front of them
+	ciAtoms := []func() *g.Node{
+		lit("a"), lit("A"), capOf(lit("a")), func() *g.Node { return capMark(g.LitT("A", "Ident")) },
+		capOf(ref("Ident")), lit("b"),
+		func() *g.Node { return g.Grp(capMark(g.Lit("a")), '*') },
+		func() *g.Node { return capMark(g.Neg(g.Lit("a"))) },
+	}
+	memo4 := map[int][]func() *g.Node{}
+	var cs []func() *g.Node
+	cs = append(cs, terms(1, ciAtoms, memo4)...)
+	cs = append(cs, terms(2, ciAtoms, memo4)...)
+	ci := mk("elide-ci2", top(cs), []scheme{schemeShared})
+	for _, gr := range ci {
+		gr.Alphabet = "aAb"
+		gr.CI = []string{"Ident"}
+	}
+	out = append(out, ci...)
 	return out
 }
 
@@ -674,6 +691,21 @@ func Positions(t Tier) []*Grammar {
 			gr.Positions = true
 			gr.Lookaheads = []int{1, 2, -1}
 			gr.Mapper = style == 0
+		}
+		out = append(out, grs...)
+	}
+	// the same terms with every capture going to a lexer.Token / []lexer.Token field (a repeated capture
+	// accumulates token ranges in one field) next to the node's own Pos / EndPos / Tokens
+	{
+		grs := build("pos2-tokfields", thin(ts, every*3), []scheme{schemeToks, schemeTok}, "abc", 3)
+		for _, gr := range grs {
+			setPositions(gr.Root, 0)
+			gr.Elide = ElideAll
+			gr.Spaced = true
+			gr.Fills = []string{"", " \n#"}
+			gr.SpacedLen = 3
+			gr.Positions = true
+			gr.Lookaheads = []int{1, -1}
 		}
 		out = append(out, grs...)
 	}
@@ -786,6 +818,31 @@ func CaseInsensitive(t Tier) []*Grammar {
 		out = append(out, grs...)
 	}
 	return out
+}
+
+// ParseableFam: a user-implemented production (gmodel.PNotB) at choice points: attempts it abandons with
+// NextMatch after writing to its receiver, followed by attempts that succeed.
+func ParseableFam(t Tier) []*Grammar {
+	pn := func() *g.Prod {
+		return &g.Prod{Name: "PNotB", Static: g.PNotB{}, Body: g.Seq(g.Look(g.Lit("b"), '!'), g.Cap(0, g.Ref("Ident"))), Fields: []g.Field{{Name: "F0", Kind: g.FString}}}
+	}
+	sub := func() *g.Node { return g.Sub(-1, pn()) }
+	leaves := []func() *g.Node{lit("b"), lit("a"), capOf(ref("Ident")), sub,
+		func() *g.Node { return g.Grp(sub(), '*') },
+		func() *g.Node { return g.Grp(sub(), '?') },
+		func() *g.Node { return g.Grp(g.Alt(sub(), capMark(g.Lit("b"))), '*') },
+		func() *g.Node { return g.Grp(g.Seq(g.Grp(g.Lit("b"), '?'), sub()), '+') },
+		func() *g.Node { return g.Alt(g.Seq(sub(), g.Lit("c")), g.Seq(g.Lit("b"), sub())) },
+	}
+	memo := map[int][]func() *g.Node{}
+	var ts []func() *g.Node
+	ts = append(ts, terms(1, leaves, memo)...)
+	ts = append(ts, terms(2, leaves, memo)...)
+	ml := 5
+	if t == Quick {
+		ml = 4
+	}
+	return build("parseable2", top(ts), []scheme{schemeOwn}, "abc", ml)
 }
 
 // ---------- exported helpers for other engines
